@@ -355,3 +355,30 @@ Theorem farm_exactly_once_unconditional :
 Proof. exact farm_full_model_exactly_once. Qed.
 Print Assumptions farm_exactly_once_unconditional.
 End FL.
+
+(** ** HTLC, linked to the full HTLC model of C03/C04 ([Htlc/Model.v]): the hypothesis of module
+    [H] ([op_clean]: no refund of a begin blocker returns an error) is a fact of that model. *)
+From Irismod Require Queues.LinkHtlc.
+Module HL.
+Import Irismod.Htlc.Model Irismod.Htlc.Proofs Irismod.Queues.LinkHtlc.
+
+(** Every operation of the full model from a state satisfying its invariant is matched by CLEAN
+    operations of the queue model ([R fs qs tbl]: [tbl] interns the structured contract ids as
+    numbers; related contracts agree on state, expiration height, closing block, transfer flag
+    and number of coins; the heights agree). *)
+Theorem htlc_link_step :
+  forall fs qs tbl o, Inv fs -> Strict fs -> wf_op o -> R fs qs tbl -> QP.QInv qs ->
+    exists qops tbl', Forall QP.op_clean qops /\ R (step fs o) (Q.run qs qops) tbl' /\ QP.QInv (Q.run qs qops).
+Proof. exact sim_step. Qed.
+Print Assumptions htlc_link_step.
+
+(** Every history of the full model (valid parameters, empty escrow at genesis, no module
+    account as sender or receiver — satisfiable: [Htlc/Examples.v]) is mirrored by a clean
+    history of the queue model, to which [H.htlc_queue_hygiene] and
+    [H.processed_exactly_once_htlc] therefore apply. *)
+Theorem htlc_link_simulation :
+  forall P b t0 ops, params_ok P -> escrow_empty b -> Forall wf_op ops ->
+    exists qops tbl, Forall QP.op_clean qops /\ R (reachable P b t0 ops) (Q.run (Q.init 1) qops) tbl.
+Proof. exact Irismod.Queues.LinkHtlc.htlc_link_simulation. Qed.
+Print Assumptions htlc_link_simulation.
+End HL.
